@@ -16,6 +16,8 @@ import (
 	"verif/harness/sim"
 )
 
+var _ = attest.Keccak
+
 // Mix is a weighted choice among op families for a history generator.
 type Mix struct {
 	Send, Dep, Recv, Replay, Replace, RepDep, Admin, Ledger, Multi int
@@ -509,9 +511,52 @@ func c03extra(c *strict, w *sim.World, s *sim.Step) *Viol {
 var recvAdmin = []string{"PauseBurningAndMinting", "UnpauseBurningAndMinting", "UnpauseBurningAndMinting", "PauseSendingAndReceivingMessages", "UnpauseSendingAndReceivingMessages", "UnpauseSendingAndReceivingMessages",
 	"EnableAttester", "DisableAttester", "UpdateSignatureThreshold", "LinkTokenPair", "UnlinkTokenPair", "AddRemoteTokenMessenger", "RemoveRemoteTokenMessenger"}
 
+// staleAttestationProbe: a module-addressed receive that is validly attested but rejected because minting
+// is paused; then one of its signers is disabled (or the threshold raised), minting unpaused, and the very
+// same bytes are submitted again: the attestation is no longer valid.
+func staleAttestationProbe(g *sim.G, label string) []*sim.Op {
+	m := g.W.Model
+	ks := g.W.EnabledKeys()
+	t := int(m.Thr)
+	if len(ks) < 2 || len(m.Atts) <= t || t < 1 || len(ks) < t {
+		return nil
+	}
+	by := sim.Acct(g.Acct(label + "/by"))
+	yes := true
+	in := g.Inbound(label+"/in", sim.InboundOpts{ToModule: &yes, Submitter: by})
+	signers := ks[:t]
+	att := attest.Attest(in.Msg, signers, attest.SigStyle{})
+	victim := signers[g.Int(label+"/victim", 0, len(signers)-1)]
+	var spelling string
+	for _, s := range m.AttesterList() {
+		if sim.KeyOfSpelling(s) == victim.Idx {
+			spelling = s
+		}
+	}
+	recv := func() *sim.Op {
+		return sim.TxOp("recv", &types.MsgReceiveMessage{From: by, Message: append([]byte{}, in.Msg...), Attestation: append([]byte{}, att...)}).WithMeta("module", "1")
+	}
+	return []*sim.Op{
+		sim.TxOp("admin:PauseBurningAndMinting", &types.MsgPauseBurningAndMinting{From: m.Roles[2]}),
+		recv(),
+		sim.TxOp("admin:DisableAttester", &types.MsgDisableAttester{From: m.Roles[1], Attester: spelling}),
+		sim.TxOp("admin:UnpauseBurningAndMinting", &types.MsgUnpauseBurningAndMinting{From: m.Roles[2]}),
+		recv().WithMeta("vary", "stale-attestation"),
+	}
+}
+
 var C03 = register(&HistProp{ID: "C03",
 	Genesis: func(t *rapid.T) *sim.GenSpec { return sim.DrawGenesis(t, sim.GenOpts{UsedInGen: true, Decoys: true}) },
 	Next: func(g *sim.G, i int) *sim.Op {
+		if op := queuedOp(g); op != nil {
+			return op
+		}
+		if g.Pct("staleatt", 4) {
+			if ops := staleAttestationProbe(g, "stale"); ops != nil {
+				queueOps(g, ops[1:]...)
+				return ops[0]
+			}
+		}
 		return Mix{Recv: 14, Replay: 4, Admin: 4, Ledger: 2, RecvBroken: 65, AdminHolder: 90, FaultPct: 5, AdminTypes: recvAdmin}.next(g)
 	},
 	MinOps: 3, MaxOps: 25,
